@@ -391,11 +391,16 @@ NMEA_BODIES = [b"GGA,092750.000,5321.6802,N,00630.3372,W,1,8,1.03,61.7,M,55.2,M,
                b"RMC,1,2,3*00", b"TXT,01,01,02,u-blox*4E", b"X"]
 
 
+# the NMEA 0183 talker initials pyrtcm's reader recognises ($V $M $P $B $D $I $L $G $F $S $H $R $E $Y $A $C $Z $T $W);
+# pinned here so that a talker dropped from (or added to) NMEA_HDR shows up as a stream that is no longer skipped
+NMEA_TALKERS = b"VMPBDILGFSHREYACZTW"
+
+
 def gen_nmea(rng, tables, valid=True, crlf=True):
     if valid:
-        h = bytes(rng.choice(tables["nmeaHdr"]))
+        h = b"$" + bytes([rng.choice(NMEA_TALKERS)])
     else:
-        h = b"$" + bytes([rng.choice([c for c in range(65, 91) if [36, c] not in tables["nmeaHdr"]])])
+        h = b"$" + bytes([rng.choice([c for c in range(65, 91) if c not in NMEA_TALKERS])])
     body = rng.choice(NMEA_BODIES)
     return h + body + (b"\r\n" if crlf else b"\n")
 
